@@ -45,7 +45,9 @@ func checkC01(c *core.Ctx, r *core.Report) {
 		"(5) BACKFILL — after a record's own columns are written, every other column of the open block receives exactly one backfill byte (the loop visits all columns, no path skips the append); " +
 		"(6) BLOCKRESET — per-block writer state is wholly reset between blocks: the column offset/length table (all entries, before the columns of the block are filled in), every column buffer, cursor and dictionary, the present-columns set and the block summary counters; " +
 		"(7) TSWIDTH — the timestamp block uses the width its type byte announces on both sides, and the type is chosen by the matching bound of the block's time span; " +
-		"(8) BOUND — a value length that is narrowed to the 16-bit TLV length field is bounded by a dominating comparison (a longer value is rejected, not truncated)."
+		"(8) BOUND — a value length that is narrowed to the 16-bit TLV length field is bounded by a dominating comparison (a longer value is rejected, not truncated); " +
+		"(9) OWNSTR — a zero-copy string made from bytes the function does not own (utils.UnsafeByteSliceToString of a read buffer) is not kept: not stored into a field, element or global, not inserted into a map, not returned or sent, also through repository callees (depth 3); sites accepted by reading are listed with their reason; " +
+		"(10) OPENSEG — the per-block bookkeeping of the open segment (column set, block summaries, block metadata) is extended on every call of updateUnrotatedBlockInfo, not only where the segment's record is created."
 	r.NotCovered = "value equality of the round trip, alignment of record i across columns as an outcome, dictionary cut-over at the cardinality limit, block/segment boundary handling, JSON flattening semantics (names, escapes), number/string consolidation results, zstd and checksum layers (C18)"
 
 	tags := c01TagArms(c, r)
@@ -56,6 +58,8 @@ func checkC01(c *core.Ctx, r *core.Report) {
 	c01BlockReset(c, r)
 	c01Timestamps(c, r)
 	c01LenBound(c, r)
+	c01OwnStrings(c, r)
+	c01OpenSegmentBookkeeping(c, r)
 }
 
 // ---------------------------------------------------------------------------------------------- tag arms
@@ -1293,14 +1297,18 @@ func c01Backfill(c *core.Ctx, r *core.Report) {
 // wholeLoops: loops of fn that iterate over every element of the collection held in field f
 // (range over it, or an index running to len(it)).
 func wholeLoops(fn *ssa.Function, f *types.Var) []*core.Loop {
-	isLoadOfField := func(v ssa.Value) bool {
+	return wholeLoopsOver(fn, func(v ssa.Value) bool {
 		ld, ok := v.(*ssa.UnOp)
 		if !ok {
 			return false
 		}
 		fa, ok := ld.X.(*ssa.FieldAddr)
 		return ok && core.FieldOfAddr(fa) == f
-	}
+	})
+}
+
+// wholeLoopsOver: loops of fn that iterate over every element of a collection value accepted by isColl.
+func wholeLoopsOver(fn *ssa.Function, isLoadOfField func(v ssa.Value) bool) []*core.Loop {
 	var out []*core.Loop
 	for _, l := range core.Loops(fn) {
 		whole := false
